@@ -162,8 +162,7 @@ fn main() {
     run.bound("configurations", cfgs.len());
     run.bound("lattice", json!({"precision": PRECS, "mode": MODES, "lower": LOWERS, "upper": UPPERS, "padding": PADS}));
     run.bound("selection", if tier.is_thorough() { "full product (2016 configurations)" } else { "default + all 56 precision x mode pairs + all 36 threshold triples + 4 all-non-default corners" });
-    run.rule("every configuration of the selection is BUILT (RUST_BIGDECIMAL_* environment, cargo rebuild of the subject and the probe) and probed: Context::default reports the configured values; sqrt/cbrt/inverse/round with implicit defaults equal the explicit-context calls (and the model) on a small-scope grid; division judged with the configured precision (incl. 'delivers exactly P digits when the integer part fits'); exp has P digits and is within one unit; Display switches notation exactly at the configured zero counts; {:.N}/{:.Ne} round with the configured mode; integer padding is applied iff within the configured limit; states = configurations built, transitions = probe comparisons; non-trivial = configurations differing from the default");
-    run.assume("exp hard-codes its working precision; only digit count, sign and one-unit accuracy are checked per configuration");
+    run.rule("every configuration of the selection is BUILT (RUST_BIGDECIMAL_* environment, cargo rebuild of the subject and the probe) and probed: Context::default reports the configured values; sqrt/cbrt/inverse/round with implicit defaults equal the explicit-context calls (and the model) on a small-scope grid; division judged with the configured precision (incl. 'delivers exactly P digits when the integer part fits'); exp has at most P digits and is within one unit of the P-th digit in EVERY configuration (also for arguments so small that e^x rounds to 1); Display switches notation exactly at the configured zero counts; {:.N}/{:.Ne} round with the configured mode; integer padding is applied iff within the configured limit; states = configurations built, transitions = probe comparisons; non-trivial = configurations differing from the default");
 
     let nslots = threads();
     if let Err(e) = prepare_slots(nslots) {
